@@ -168,7 +168,7 @@ const MB: &[&str] = &["é", "€", "😀", "日", "ß"];
 
 /// invalid JSON after non-ASCII text at every alignment of the 16-byte error window (F6)
 fn json_utf8_sites(g: &mut G) {
-	let errs: &[&str] = &[" x", "]", ":", "", "\"", "tru", "nul", "1e", "-", "[1 2]", "{\"a\" 1}", "{\"a\":1 \"b\"}", "{1}", "\"\\u12", "\"\\u00é0\"", "\"\\ué000\"", "\"\\u0é\"", "\"\\u😀\"", "\"\\q"];
+	let errs: &[&str] = &[" x", "]", ":", "", "\"", "tru", "nul", "1e", "-", "[1 2]", "{\"a\" 1}", "{\"a\":1 \"b\"}", "{1}", "\"\\u12", "\"\\u000é\"", "\"\\u00€\"", "\"\\u0😀\"", "\"\\u000é", "\"x\\u004é\" ", "\"\\u00é0\"", "\"\\ué000\"", "\"\\u0é\"", "\"\\u😀\"", "\"\\q"];
 	for pad in 0..20usize {
 		for ch in MB {
 			for (ei, e) in errs.iter().enumerate() {
